@@ -15,10 +15,18 @@ type roleCount struct {
 	Processors, SlowPath, Senders, Receivers, InternalProc, BFD int
 }
 
+// starved counts goroutines blocked in PacketPool.Get on an empty pool.
+type starvedCount struct {
+	Receivers, BFD int
+}
+
 type idleSnap struct {
 	Idle  roleCount // goroutines found blocked at their loop head
 	Busy  roleCount // goroutines of that role found anywhere else
 	Other int
+	// Starved: receivers / BFD senders blocked inside PacketPool.Get (they are
+	// counted neither idle nor busy).
+	Starved starvedCount
 	// BusyWhere lists "role: state @ top frame" of the busy ones (diagnostics).
 	BusyWhere []string
 }
@@ -80,6 +88,10 @@ func snapshotGoroutines() idleSnap {
 			note("sender", state == "chan receive" &&
 				(strings.HasSuffix(top, "udpip.readUpTo") || strings.HasSuffix(top, "udpip.(*udpConnection).send")),
 				&s.Idle.Senders, &s.Busy.Senders)
+		case has("udpip.(*udpConnection).receive(") && state == "chan receive" && strings.HasSuffix(top, "router.(*PacketPool).Get"):
+			s.Starved.Receivers++
+		case has("bfd.(*Session).Run(") && state == "chan receive" && strings.HasSuffix(top, "router.(*PacketPool).Get"):
+			s.Starved.BFD++
 		case has("udpip.(*udpConnection).receive("):
 			note("receiver", state == "chan receive" && strings.HasSuffix(top, "main.(*fconn).park"),
 				&s.Idle.Receivers, &s.Busy.Receivers)
